@@ -387,6 +387,36 @@ func (oc *orderCtx) classifyLoop(v *FnView, rs *ast.RangeStmt, depth int) *mapRa
 			} else {
 				bad(x, "early return of a value taken from the iteration: the first match depends on the order")
 			}
+		case *ast.BranchStmt:
+			if x.Tok == token.BREAK && x.Label == nil && v.innermostLoop(x) == ast.Node(rs) {
+				// leaving the loop early makes the set of processed elements depend on the order, unless the
+				// block that breaks is an error exit (it assigns an error variable that outlives the loop) or a
+				// found-flag exit (it assigns a constant)
+				okExit := false
+				if blk := v.innermostBlock(x); blk != nil {
+					for _, st := range blk.List {
+						as, isAs := st.(*ast.AssignStmt)
+						if !isAs || len(as.Lhs) != 1 || len(as.Rhs) != 1 {
+							continue
+						}
+						o := v.objOf(rootIdent(as.Lhs[0]))
+						if o == nil || !declaredOutside(o, rs.Body) {
+							continue
+						}
+						if isErrorLike(v.Info.TypeOf(as.Lhs[0])) && !isNilIdent(v.Info, as.Rhs[0]) {
+							okExit = true
+						}
+						if cv := v.constOf(as.Rhs[0]); cv != nil {
+							okExit = true
+						}
+					}
+				}
+				if okExit {
+					ok(x, "break on an error / found-flag exit")
+				} else {
+					bad(x, "break out of an unordered iteration: which elements were processed before it depends on the order")
+				}
+			}
 		case *ast.GoStmt:
 			bad(x, "goroutine started inside an unordered iteration")
 		case *ast.ExprStmt:
@@ -837,6 +867,12 @@ func (v *FnView) nondetSources() []nondetSite {
 			out = append(out, nondetSite{v.pos(x), "go statement (goroutine scheduling)", x})
 		case *ast.SelectStmt:
 			out = append(out, nondetSite{v.pos(x), "select statement (scheduling)", x})
+		case *ast.SelectorExpr:
+			if id, ok := x.X.(*ast.Ident); ok {
+				if pn, ok := v.Info.ObjectOf(id).(*types.PkgName); ok && pn.Imported().Path() == "time" && x.Sel.Name == "Local" {
+					out = append(out, nondetSite{v.pos(x), "the process's local time zone (time.Local)", x})
+				}
+			}
 		case *ast.CallExpr:
 			cal := v.callee(x)
 			if cal == nil || cal.Pkg() == nil {
@@ -848,7 +884,7 @@ func (v *FnView) nondetSources() []nondetSite {
 			}
 			what := ""
 			switch {
-			case pk == "time" && (nm == "Now" || nm == "Since" || nm == "Until" || nm == "After" || nm == "Tick" || nm == "Sleep" || nm == "NewTimer" || nm == "NewTicker"):
+			case pk == "time" && (nm == "Now" || nm == "Since" || nm == "Until" || nm == "After" || nm == "Tick" || nm == "Sleep" || nm == "NewTimer" || nm == "NewTicker" || nm == "LoadLocation"):
 				what = "wall clock time." + nm
 			case pk == "math/rand" || pk == "math/rand/v2" || pk == "crypto/rand":
 				what = "randomness " + pk + "." + nm
@@ -995,6 +1031,7 @@ func runC08(r *Run) {
 	r.rule("C08.R1p", "slices built in map order and returned: every caller's use hides the order", 3)
 	r.rule("C08.R2", "no wall clock, randomness, process environment, goroutines or select in consensus-reachable code", 400)
 	r.rule("C08.R3", "package-level variables written from consensus-reachable code are exactly the audited set", 8)
+	r.rule("C08.R5", "node-local configuration (AppOptions) reaches consensus-reachable code only under ctx.IsCheckTx(), or through an audited field", 2)
 	r.rule("C08.R4", "CheckTx/simulate copy of the aggregator context: every mutable field is a fresh object with fresh elements; shared fields are never written on the CheckTx path", 5)
 
 	oc := &orderCtx{w: w, producers: map[*types.Func]map[int]bool{}}
@@ -1088,6 +1125,8 @@ func runC08(r *Run) {
 	}
 	// R4
 	c08CheckTxCopy(r)
+	// R5
+	c08NodeLocalConfig(r)
 }
 
 // useOfCallResult: how the (unordered) results idxs of call c are used in fv.
